@@ -182,6 +182,105 @@ func C13_Isolation() {
 	vf.Reach("iso-ok")
 }
 
+// fixed larger graphs (module i imports the listed modules; main imports mainImports)
+type graphShape struct {
+	name        string
+	edges       [][]int
+	mainImports []int
+}
+
+var graphShapes = []graphShape{
+	{"chain-4", [][]int{{1}, {2}, {3}, {}}, []int{0}},
+	{"deep-diamond", [][]int{{1}, {2}, {}}, []int{0, 2}},
+	{"deep-diamond-reversed", [][]int{{1}, {2}, {}}, []int{2, 0}},
+	{"two-parents-deep", [][]int{{2}, {2}, {3}, {}}, []int{0, 1, 3}},
+	{"cycle-3-not-through-first", [][]int{{1}, {2}, {3}, {1}}, []int{0}},
+	{"cycle-4", [][]int{{1}, {2}, {3}, {0}}, []int{0}},
+	{"self-loop-deep", [][]int{{1}, {2}, {2}}, []int{0}},
+	{"unreachable-cycle", [][]int{{}, {2}, {1}}, []int{0}},
+	{"shared-leaf-three-ways", [][]int{{3}, {3}, {3, 0}, {}}, []int{0, 1, 2, 3}},
+}
+
+// C13_Shapes: hand-picked larger import graphs (deep diamonds, long chains,
+// cycles that do not pass through the first module): same obligations as
+// C13_Graphs.
+func C13_Shapes() {
+	g := graphShapes[vf.Choice("shape", len(graphShapes))]
+	k := len(g.edges)
+	mods := tengo.NewModuleMap()
+	for i := 0; i < k; i++ {
+		body := "x := " + strconv.Itoa(i+1) + "\n"
+		for _, j := range g.edges[i] {
+			body += "x += import(\"" + modName(j) + "\")\n"
+		}
+		body += "export x\n"
+		mods.AddSourceModule(modName(i), []byte(body))
+	}
+	src := "out := 0\n"
+	for _, j := range g.mainImports {
+		src += "out += import(\"" + modName(j) + "\")\n"
+	}
+	colour := make([]int, k)
+	cyc := false
+	var visit func(i int)
+	visit = func(i int) {
+		colour[i] = 1
+		for _, j := range g.edges[i] {
+			if colour[j] == 1 {
+				cyc = true
+			} else if colour[j] == 0 {
+				visit(j)
+			}
+		}
+		colour[i] = 2
+	}
+	for _, j := range g.mainImports {
+		if colour[j] == 0 {
+			visit(j)
+		}
+	}
+	reach := 0
+	for j := 0; j < k; j++ {
+		if colour[j] != 0 {
+			reach++
+		}
+	}
+	var val func(i int) int64
+	val = func(i int) int64 {
+		v := int64(i + 1)
+		for _, j := range g.edges[i] {
+			v += val(j)
+		}
+		return v
+	}
+	s := tengo.NewScript([]byte(src))
+	s.SetImports(mods)
+	var c *tengo.Compiled
+	var err error
+	res := vf.Guard(func() { c, err = s.Compile() }, 8000000)
+	vf.Assert(res == 0, "compiling import graph "+g.name+" terminates without panic: "+vf.LastGuard())
+	vf.Assert((err == nil) == !cyc, "graph "+g.name+": compilation succeeds exactly when no import cycle is reachable from main")
+	if err != nil {
+		vf.Reach("shape-cycle")
+		return
+	}
+	rerr, panicked, _ := RunGuarded(c)
+	vf.Assert(rerr == nil && !panicked, "graph "+g.name+" runs")
+	want := int64(0)
+	for _, j := range g.mainImports {
+		want += val(j)
+	}
+	vf.Assert(c.Get("out").Int64() == want, "graph "+g.name+": imports evaluate to the exported values")
+	nf := 0
+	for _, cst := range tengo.VerifBytecode(c).Constants {
+		if _, ok := cst.(*tengo.CompiledFunction); ok {
+			nf++
+		}
+	}
+	vf.Assert(nf == reach, "graph "+g.name+": a module reached by several paths is compiled once")
+	vf.Reach("shape-acyclic")
+}
+
 var importNames = []string{"m", "x", "./x", "../x", "/etc/passwd", "x.tengo", "a/b/c", ".", "..", "m/../m", "os", "fmt"}
 
 // C13_NoFileSystem: with file import disabled an import expression resolves
@@ -190,9 +289,18 @@ var importNames = []string{"m", "x", "./x", "../x", "/etc/passwd", "x.tengo", "a
 func C13_NoFileSystem() {
 	name := importNames[vf.Choice("name", len(importNames))]
 	cfg := vf.Choice("cfg", 3)
+	nested := vf.Choice("nested", 2) == 1
 	s := tengo.NewScript([]byte(`x := import("` + name + `")`))
 	mods := tengo.NewModuleMap()
 	mods.AddSourceModule("m", []byte(`export 1`))
+	if nested {
+		// the import happens inside a source module taken from the module map
+		if cfg == 2 {
+			vf.Stop()
+		}
+		mods.AddSourceModule("outer", []byte(`export import("`+name+`")`))
+		s = tengo.NewScript([]byte(`x := import("outer")`))
+	}
 	switch cfg {
 	case 0: // default: file import disabled, module map set
 		s.SetImports(mods)
